@@ -159,3 +159,100 @@ Proof.
   - symmetry. apply first_defined_present. exact E.
   - apply (default_of_first_defined d inh present others F l); assumption.
 Qed.
+
+(** ** the mapping built while merging, on a configuration *)
+
+Definition target_of (dflt : N) (inherits : list (N * N)) (x : N) : N :=
+  match map_get inherits x with Some y => y | None => dflt end.
+Definition push_step (dflt : N) (inherits : list (N * N)) (defines : N -> bool) (d : dl) (x : N) : dl :=
+  if defines x then d else dl_push d x (target_of dflt inherits x).
+
+Lemma defaults_of_fold : forall dflt inherits others defines,
+  defaults_of dflt inherits others defines = fold_left (push_step dflt inherits defines) others (dl_new dflt).
+Proof. reflexivity. Qed.
+
+Lemma defaults_fold_get : forall dflt inherits defines others d0 x,
+  map_get (dl_map (fold_left (push_step dflt inherits defines) others d0)) x
+  = if mem x others && negb (defines x) then Some (target_of dflt inherits x) else map_get (dl_map d0) x.
+Proof.
+  intros dflt inherits defines. induction others as [|y r IH]; intros d0 x; [reflexivity|].
+  cbn [fold_left]. rewrite IH. unfold mem. cbn [existsb]. fold (mem x r).
+  destruct (mem x r && negb (defines x)) eqn:E.
+  - apply andb_true_iff in E. destruct E as [E1 E2]. rewrite E1, E2, orb_true_r. reflexivity.
+  - unfold push_step. destruct (defines y) eqn:Dy.
+    + destruct (x =? y) eqn:Exy.
+      * apply N.eqb_eq in Exy. subst. rewrite Dy. cbn [negb]. rewrite andb_false_r. reflexivity.
+      * cbn [orb]. rewrite E. reflexivity.
+    + destruct (x =? y) eqn:Exy.
+      * apply N.eqb_eq in Exy. subst. rewrite Dy. cbn [orb negb andb]. unfold dl_push. cbn [dl_map]. apply map_get_insert_same.
+      * cbn [orb]. rewrite E. unfold dl_push. cbn [dl_map]. apply map_get_insert_other. apply N.eqb_neq. exact Exy.
+Qed.
+
+Lemma defaults_fold_default : forall dflt inherits defines others d0,
+  dl_default (fold_left (push_step dflt inherits defines) others d0) = dl_default d0.
+Proof.
+  intros dflt inherits defines. induction others as [|y r IH]; intros d0; [reflexivity|].
+  cbn [fold_left]. rewrite IH. unfold push_step. destruct (defines y); reflexivity.
+Qed.
+
+Lemma defaults_fold_length : forall dflt inherits defines others d0,
+  (length (dl_map (fold_left (push_step dflt inherits defines) others d0)) <= length (dl_map d0) + length others)%nat.
+Proof.
+  intros dflt inherits defines. induction others as [|y r IH]; intros d0; [cbn [fold_left length]; lia|].
+  cbn [fold_left length]. eapply Nat.le_trans; [apply IH|]. unfold push_step. destruct (defines y); [lia|].
+  unfold dl_push. cbn [dl_map]. pose proof (map_insert_length (dl_map d0) y (target_of dflt inherits y)). lia.
+Qed.
+
+Lemma assoc_get_some : forall {V} (l : list (N * V)) k, In k (map fst l) -> exists v, assoc_get l k = Some v.
+Proof.
+  intros V. induction l as [|[k' v'] r IH]; intros k H; [destruct H|]. cbn [assoc_get].
+  destruct (k =? k') eqn:E; [eexists; reflexivity|]. apply IH. destruct H as [H|H]; [|exact H].
+  cbn [fst] in H. subst. rewrite N.eqb_refl in E. discriminate.
+Qed.
+
+(** C02_defaulted_config: on a configuration (default locale, the other locales, the `inherits` table) and the
+    values of the locales that define a key, both generated matches give every configured locale the code of
+    the value of the first locale of its inherits walk that defines the key, else the default's *)
+Theorem defaulted_config : forall (dflt : N) (inherits : list (N * N)) (others : list N) (defs : list (N * pv)),
+  NoDup (map fst defs) -> ~ In dflt others -> In dflt (map fst defs) ->
+  (forall t, In t (map fst defs) -> t = dflt \/ In t others) ->
+  (forall x y, map_get inherits x = Some y -> In x others /\ (y = dflt \/ In y others)) ->
+  let defines := fun l => existsb (N.eqb l) (map fst defs) in
+  let d := defaults_of dflt inherits others defines in
+  forall l, (l = dflt \/ In l others) ->
+  exists v, assoc_get defs (first_defined (map_get inherits) defines dflt (S (length others)) l) = Some v
+            /\ view_locale_match (compute d) defs l = Some (gen_view v)
+            /\ string_locale_match (compute d) defs l = Some (gen_string v).
+Proof.
+  intros dflt inherits others defs Hnd Hdo Hdd Hdefs Hinh defines d l Hl.
+  assert (Hdef_iff : forall t, defines t = true <-> In t (map fst defs)) by (intros t; apply existsb_eqb_In).
+  assert (Hget : forall x, map_get (dl_map d) x = if mem x others && negb (defines x) then Some (target_of dflt inherits x) else None).
+  { intros x. subst d. rewrite defaults_of_fold, defaults_fold_get. reflexivity. }
+  assert (Hdflt : dl_default d = dflt) by (subst d; rewrite defaults_of_fold; apply defaults_fold_default).
+  assert (Hlen : (length (dl_map d) <= length others)%nat).
+  { subst d. rewrite defaults_of_fold. pose proof (defaults_fold_length dflt inherits defines others (dl_new dflt)) as H. cbn [dl_new dl_map length] in H. exact H. }
+  assert (Hmem_others : forall x, mem x others = true <-> In x others) by (intros x; apply mem_In).
+  assert (Heff : effective d defines l = first_defined (map_get inherits) defines dflt (S (length others)) l).
+  { rewrite <- Hdflt. apply (effective_is_walk d (map_get inherits) defines others).
+    - intros x Hx. rewrite Hget. apply Hmem_others in Hx. rewrite Hx. cbn [andb]. rewrite Hdflt.
+      destruct (defines x); reflexivity.
+    - intros x Hx. rewrite Hget. destruct (mem x others) eqn:E; [apply Hmem_others in E; contradiction|reflexivity].
+    - rewrite Hdflt. exact Hdo.
+    - rewrite Hdflt. apply Hdef_iff. exact Hdd.
+    - rewrite Hdflt. exact Hinh.
+    - lia.
+    - rewrite Hdflt. exact Hl. }
+  assert (Hin : In (first_defined (map_get inherits) defines dflt (S (length others)) l) (map fst defs)).
+  { pose proof (first_defined_cases (map_get inherits) defines dflt (S (length others)) l) as Hc. cbn zeta in Hc.
+    destruct Hc as [Hc|Hc]; [apply Hdef_iff; exact Hc|rewrite Hc; exact Hdd]. }
+  destruct (assoc_get_some defs _ Hin) as [v Hv]. exists v. split; [exact Hv|].
+  apply (defaulted_agree d defs Hnd).
+  - rewrite Hdflt, Hget. destruct (mem dflt others) eqn:E; [apply Hmem_others in E; contradiction|reflexivity].
+  - intros t Ht. rewrite Hget. apply Hdef_iff in Ht. rewrite Ht. cbn [negb]. rewrite andb_false_r. reflexivity.
+  - destruct (defines l) eqn:Dl; [left; apply Hdef_iff; exact Dl|]. right.
+    assert (Hlo : In l others).
+    { destruct Hl as [Hl|Hl]; [|exact Hl]. subst l. apply Hdef_iff in Hdd. congruence. }
+    apply (map_get_Some_In _ _ (target_of dflt inherits l)). rewrite Hget.
+    apply Hmem_others in Hlo. rewrite Hlo, Dl. reflexivity.
+  - fold defines. rewrite Heff. exact Hv.
+Qed.
